@@ -13,6 +13,8 @@ import RedisVerif.Props.C16
     UP <hex>          → `String::from_utf8_lossy(b).to_uppercase()` as hex
     LO <hex>          → `.to_lowercase()` of the upper-cased lossy string
     F  <hex>          → `str::parse::<f64>`: f<16 hex digits> | fnan | none
+    I  <hex>          → `str::parse::<i64>`: i<value> | none
+    U64 <hex> / U32 <hex> → `str::parse::<u64 / u32>`: n<value> | empty | invalid | overflow
     R2L <resp>        → `resp_to_lua_value`, rendered as a Lua value
     L2R <lua>         → `lua_to_resp`, rendered as a RESP value
     RT <resp>         → `lua_to_resp (resp_to_lua_value r)`
@@ -293,6 +295,12 @@ def runScriptOp (o : ScriptOp) : String :=
     | none => "not-an-eval"
   | .error e => "frame-rejected " ++ showErr e
 
+def showUnsigned : Except IntErr Nat → String
+  | .ok n => s!"n{n}"
+  | .error .empty => "empty"
+  | .error .invalid => "invalid"
+  | .error .overflow => "overflow"
+
 def step (line : String) : String :=
   match tokens line with
   | "P" :: ts => match hexArgs ts with
@@ -314,6 +322,17 @@ def step (line : String) : String :=
     | some [b] => match parseF64 b with
       | some bits => showTok (.f bits)
       | none => "none"
+    | _ => "bad-op"
+  | ["I", t] => match hexArgs [t] with
+    | some [b] => match parseI64 b with
+      | some v => s!"i{v}"
+      | none => "none"
+    | _ => "bad-op"
+  | ["U64", t] => match hexArgs [t] with
+    | some [b] => showUnsigned (parseUnsigned u64Max b)
+    | _ => "bad-op"
+  | ["U32", t] => match hexArgs [t] with
+    | some [b] => showUnsigned (parseUnsigned u32Max b)
     | _ => "bad-op"
   | "R2L" :: ts => match (respP (ts.length + 1)).run ts with
     | some (r, []) => showLua (respToLua r)
